@@ -220,17 +220,29 @@ func runReadSources(c *Ctx, r *RuleRun) {
 		return g != nil && isEntryLookup(p, g) && g != slb
 	}
 	n := 0
-	eachInstr(search, func(ins ssa.Instruction) {
-		ret, ok := ins.(*ssa.Return)
-		if !ok || len(ret.Results) != 2 || !isConstBool(retOperand(ret, 1), false) {
-			return
+	for _, rc := range returnCases(search) {
+		rc := rc
+		ret := rc.Ret
+		if len(rc.Vals) != 2 || !isConstBool(rc.Vals[1], false) || (rc.At != ssa.Instruction(ret) && rc.Zero == nil) {
+			continue
 		}
 		n++
 		for _, src := range []struct {
 			pred InstrPred
 			what string
 		}{{isMem, "the memtables"}, {isTables, "the tables"}} {
-			q := PathQuery{P: p, Fn: search, Avoid: src.pred, Target: func(i ssa.Instruction) bool { return i == ssa.Instruction(ret) }}
+			src := src
+			avoid := src.pred
+			if rc.Zero != nil {
+				// the answer of a named result that was never assigned: the ways to the return that pass no assignment
+				avoid = func(i ssa.Instruction) bool {
+					if st, ok := i.(*ssa.Store); ok && st.Addr == ssa.Value(rc.Zero) {
+						return true
+					}
+					return src.pred(i)
+				}
+			}
+			q := PathQuery{P: p, Fn: search, Avoid: avoid, Target: func(i ssa.Instruction) bool { return i == ssa.Instruction(ret) }}
 			w := q.FindPath()
 			if w == nil {
 				r.Hold(fn, "not found only after "+src.what, p.Pos(instrPos(ret)), "every path to this answer consulted "+src.what)
@@ -238,7 +250,7 @@ func runReadSources(c *Ctx, r *RuleRun) {
 				r.Viol(fn, "not found only after "+src.what, p.Pos(instrPos(ret)), "not-found can be answered without having consulted "+src.what+" (e.g. from a negative cache): a key committed after that state was recorded reads as absent", p.describePath(w)...)
 			}
 		}
-	})
+	}
 	if n == 0 {
 		r.Undecided(fn, "not found only after the tables", "", "no not-found return")
 	}
@@ -922,6 +934,38 @@ func runCmpVictim(c *Ctx, r *RuleRun) {
 			n++
 			r.Check(!fromBack, fn, "inputs deleted from the oldest on", p.Pos(instrPos(fe.Ins)), "the removed table comes from the front-to-back selection", "input tables are deleted walking the level from Back(): after a crash between two deletions an older table of L0 survives above the merged output and shadows it")
 		}
+	}
+	// the removal loop may live in a helper that is handed the selection (deleteTables(level, tables)): judged at the call
+	for _, f := range compactors(c) {
+		fn := p.FnName(f)
+		eachInstr(f, func(ins ssa.Instruction) {
+			cl, ok := ins.(*ssa.Call)
+			if !ok {
+				return
+			}
+			g := cl.Call.StaticCallee()
+			if g == nil || !p.InModule(g) || g.Pkg != f.Pkg || len(g.Blocks) == 0 {
+				return
+			}
+			removes := false
+			for _, fe := range d.byFn[g] {
+				if fe.Kind == "remove" && fe.Class == "table" {
+					removes = true
+				}
+			}
+			if !removes {
+				return
+			}
+			for _, arg := range cl.Call.Args {
+				if !isListElemPtr(arg.Type()) && !isElemSlice(arg.Type()) {
+					continue
+				}
+				isBack := func(x ssa.Value) bool { return isListCall(x, "Back", "Prev") != nil }
+				fromBack := p.dependsOn(arg, isBack) || derivesFrom(arg, isBack)
+				n++
+				r.Check(!fromBack, fn, "inputs deleted from the oldest on", p.Pos(instrPos(cl)), "the tables handed to the removing helper come from the front-to-back selection", "input tables are deleted walking the level from Back(): after a crash between two deletions an older table of L0 survives above the merged output and shadows it")
+			}
+		})
 	}
 	if n == 0 {
 		r.Undecided("compaction", "inputs deleted from the oldest on", "", "no removal of table files found in a compaction")
